@@ -31,29 +31,49 @@ PORTS = {False: [6200, 6201], True: [300, 301]}
 UNREGULATED_PORTS = {False: [0, 7], True: [0, 5]}  # used with allow_unregulated_fixed_port_id=True (0 is a valid port-ID)
 
 
-def def_text(d: typing.Any) -> str:
-    def section(sealed: bool, size: int) -> typing.List[str]:
+def def_text(d: typing.Any, extra: typing.Sequence[str] = ()) -> str:
+    # what a section looks like inside (structure or union, documented or not) is irrelevant to the cross-definition rules
+    def section(sealed: bool, size: int, union: bool) -> typing.List[str]:
+        head = ["@union"] if union else []
+        other = ["uint8 other_variant"] if union else []
         if sealed:
-            return ["uint8[%d] payload" % size, "@sealed"]
-        return ["uint8 payload", "@extent %d" % (64 * size)]
+            return head + ["uint8[%d] payload" % size] + other + ["@sealed"]
+        return head + ["uint8 payload"] + other + ["@extent %d" % (64 * size)]
 
-    lines = section(d["sealed"], d["size"])
+    first = section(d["sealed"], d["size"], bool(d.get("union")))
+    k = 1 if d.get("union") else 0  # extra statements (constants, assertions) go after a leading @union
+    lines = (["# a doc comment"] if d.get("doc") else []) + first[:k] + list(extra) + first[k:]
     if d["service"]:
-        lines += ["---"] + section(d["rsealed"], d["rsize"])
+        lines += ["---"] + section(d["rsealed"], d["rsize"], bool(d.get("runion")))
     return "\n".join(lines) + "\n"
 
 
 def file_name(d: typing.Any, unregulated: bool = False) -> str:
+    """Path relative to the root namespace directory; a name may lie in a nested namespace ("A/Request": vendor/A/Request.1.0.dsdl
+    next to vendor/A.1.0.dsdl - a namespace may share its name with a type, and `Request` / `Response` are ordinary short names)."""
     port = "" if d["port"] is None else "%d." % (UNREGULATED_PORTS if unregulated else PORTS)[d["service"]][d["port"]]
-    return "%s%s.%d.%d.dsdl" % (port, d["name"], d["version"][0], d["version"][1])
+    head, _, short = d["name"].rpartition("/")
+    return (head + "/" if head else "") + "%s%s.%d.%d.dsdl" % (port, short, d["version"][0], d["version"][1])
+
+
+def dotted(d: typing.Any) -> str:
+    return d["name"].replace("/", ".")
+
+
+def _write_def(root: str, rel: str, text: str) -> str:
+    path = os.path.join(root, rel)
+    os.makedirs(os.path.dirname(path), exist_ok=True)
+    with open(path, "w") as f:
+        f.write(text)
+    return path
 
 
 def layout_of(d: typing.Any) -> typing.Any:
     """(sealed, extent) for the message / request, and for the response of a service."""
-    def one(sealed: bool, size: int) -> typing.Tuple[bool, int]:
-        return (True, 8 * size) if sealed else (False, 64 * size)
+    def one(sealed: bool, size: int, union: bool) -> typing.Tuple[bool, int]:
+        return (True, 8 * size + (8 if union else 0)) if sealed else (False, 64 * size)
 
-    return [one(d["sealed"], d["size"])] + ([one(d["rsealed"], d["rsize"])] if d["service"] else [])
+    return [one(d["sealed"], d["size"], bool(d.get("union")))] + ([one(d["rsealed"], d["rsize"], bool(d.get("runion")))] if d["service"] else [])
 
 
 def port_conflict(a: typing.Any, b: typing.Any) -> bool:
@@ -123,8 +143,7 @@ def check_target(case: typing.Any, ctx: Ctx) -> Info:
         os.makedirs(root)
         unreg = bool(case.get("unregulated"))
         for x in defs:
-            with open(os.path.join(root, file_name(x, unreg)), "w") as f:
-                f.write(def_text(x))
+            _write_def(root, file_name(x, unreg), def_text(x))
         res, ex = guarded(pydsdl.read_namespace, root, [], None, unreg, allowed=(pydsdl.InvalidDefinitionError,), what="read_namespace")
     finally:
         ctx.cleanup(d)
@@ -155,9 +174,8 @@ def check_lookup(case: typing.Any, ctx: Ctx) -> Info:
         os.makedirs(root)
         os.makedirs(lroot)
         for x in lk:
-            with open(os.path.join(lroot, file_name(x)), "w") as f:
-                f.write(def_text(x))
-        lines = ["lk.%s.%d.%d r%d" % (x["name"], x["version"][0], x["version"][1], i) for i, x in enumerate(referenced)] + ["@sealed"]
+            _write_def(lroot, file_name(x), def_text(x))
+        lines = ["lk.%s.%d.%d r%d" % (dotted(x), x["version"][0], x["version"][1], i) for i, x in enumerate(referenced)] + ["@sealed"]
         with open(os.path.join(root, "T.1.0.dsdl"), "w") as f:
             f.write("\n".join(lines) + "\n")
         if case["api"] == "files":
@@ -224,11 +242,9 @@ def check_partial(case: typing.Any, ctx: Ctx) -> Info:
         os.makedirs(lroot, exist_ok=True)
         paths = []
         for i, x in enumerate(defs):
-            lines = ["uint8 K = 1"] + ["@assert vendor.%s.%d.%d.K == 1" % (defs[j]["name"], defs[j]["version"][0], defs[j]["version"][1]) for j in refs.get(i, [])]
+            lines = ["uint8 K = 1"] + ["@assert vendor.%s.%d.%d.K == 1" % (dotted(defs[j]), defs[j]["version"][0], defs[j]["version"][1]) for j in refs.get(i, [])]
             where_dir = troot if (i in targets or not split) else lroot
-            paths.append(os.path.join(where_dir, file_name(x)))
-            with open(paths[-1], "w") as f:
-                f.write("\n".join(lines) + "\n" + def_text(x))
+            paths.append(_write_def(where_dir, file_name(x), def_text(x, lines)))
         if split:
             res, ex = guarded(pydsdl.read_namespace, troot, [lroot], None, False, True, allowed=(pydsdl.InvalidDefinitionError,), what="read_namespace:split-root")
         else:
@@ -263,19 +279,22 @@ def _defs(names: typing.List[str]) -> st.SearchStrategy:
             "size": st.sampled_from([1, 1, 2, 8]),
             "rsealed": st.booleans(),
             "rsize": st.sampled_from([1, 1, 2, 8]),
+            "union": st.sampled_from([False, False, True]),
+            "runion": st.sampled_from([False, False, True]),
+            "doc": st.booleans(),
         }
     )
     return st.lists(one, min_size=2, max_size=8)
 
 
 def parts(ctx: Ctx) -> typing.List[Part]:
-    target_cases = st.fixed_dictionaries({"defs": st.one_of(_defs(["A"]), _defs(["A", "B"]), _defs(["A", "B", "C"])), "unregulated": st.sampled_from([False, False, True])})
+    target_cases = st.fixed_dictionaries({"defs": st.one_of(_defs(["A"]), _defs(["A", "B"]), _defs(["A", "B", "C"]), _defs(["A", "A/Request"]), _defs(["A", "A/Response", "A/Request", "B"])), "unregulated": st.sampled_from([False, False, True])})
     lookup_cases = st.fixed_dictionaries(
-        {"defs": st.one_of(_defs(["A"]), _defs(["A", "B"])), "refs": st.lists(st.integers(0, 20), max_size=4), "api": st.sampled_from(["namespace", "files"])}
+        {"defs": st.one_of(_defs(["A"]), _defs(["A", "B"]), _defs(["A", "A/Response"])), "refs": st.lists(st.integers(0, 20), max_size=4), "api": st.sampled_from(["namespace", "files"])}
     )
     partial_cases = st.fixed_dictionaries(
         {
-            "defs": st.one_of(_defs(["A"]), _defs(["A", "B"])),
+            "defs": st.one_of(_defs(["A"]), _defs(["A", "B"]), _defs(["A", "A/Request"])),
             "edges": st.lists(st.tuples(st.integers(0, 7), st.integers(0, 7)), min_size=1, max_size=6),
             "targets": st.lists(st.integers(0, 7), min_size=1, max_size=4),
             "api": st.sampled_from(["files", "files", "split"]),
